@@ -97,7 +97,8 @@ RecentInRange == recent \in (0 - 1)..100      \* NOT an invariant for nested obj
 RecentBounded == recent \in (0 - 1)..150
 CounterWithinTotal == \A o \in 1..2 : (objs[o].live /\ ~objs[o].bad) => objs[o].i <= objs[o].total
 ScriptsNeverOverrun ==
-    phase = "config" =>
+    /\ KkNeverOverruns(40)
+    /\ phase = "config" =>
         /\ (cfg.entry = "zhit" => ZhitSteps(ZhitOpt(cfg), NWin) <= ZhitTotal(ZhitOpt(cfg), NWin))
         /\ (cfg.entry = "fit" => FitSteps(NumMethods(cfg.method), NumWeights(cfg.weight)) <= FitTotal(NumMethods(cfg.method), NumWeights(cfg.weight)))
 =============================================================================
